@@ -114,7 +114,7 @@ pub fn check(case: &Case, st: &mut Stats) -> Check {
                     "C01 spurious-failure",
                     format!(
                         "the documented semantics prescribe success but the build failed: {}",
-                        out.err.clone().unwrap_or_default().chars().take(600).collect::<String>()
+                        super::common::short_err(&out.err)
                     ),
                 );
             }
